@@ -1,4 +1,5 @@
 import StepupModel.K.Request
+import StepupModel.Lemmas.MetaAfter
 /-! Driver requests of the kernel model (`k <op> ...`); the only stateful part of the driver. -/
 open StepupModel StepupModel.Proto StepupModel.K
 
@@ -123,6 +124,9 @@ def handle (sess : Session) : List String → Option (Session × String)
   | ["retarget", targets, dirs] => do
     pure ({ sess with cfg := { sess.cfg with targets := ← unhexList targets, targetDirs := ← unhexList dirs } },
       s!"ok - {sess.st.digest}")
+  | ["cacheinv"] =>
+    -- the hypothesis of the worklist theorems (`MetaAfter.CacheInvAfter`), evaluated on the model state
+    pure (sess, if StepupModel.K.MetaAfter.cacheInvAfterB sess.st sess.cfg then "1" else "0")
   | ["dump"] => pure (sess, "|".intercalate sess.st.dumpLines)
   | ["lasterr"] => pure (sess, sess.lastErr)
   | toks => do
